@@ -49,6 +49,11 @@ impl<'a, 'b> InterpStack<'a, 'b> {
                             }
                         }
 
+                        if self.ctx.is_compile_time() {
+                            // The name may be bound at run time, stop constant folding
+                            return Err(CelError::binding(&name));
+                        }
+
                         Ok(CelValue::from_err(CelError::binding(&name)).into())
                     } else {
                         Ok(val.into())
@@ -445,6 +450,9 @@ impl<'a> Interpreter<'a> {
                                     {
                                         let arg_values = self.resolve_args(args)?;
                                         stack.push_val(construct_type(type_name, arg_values));
+                                    } else if self.is_compile_time() {
+                                        // May be bound at run time, stop constant folding
+                                        return Err(CelError::binding(&func_name));
                                     } else {
                                         stack.push_val(CelValue::from_err(CelError::runtime(
                                             &format!("{} is not callable", func_name),
@@ -535,6 +543,10 @@ impl<'a> Interpreter<'a> {
             }
         }
         Ok(arg_values)
+    }
+
+    fn is_compile_time(&self) -> bool {
+        self.bindings.map_or(false, |b| b.is_compile_time())
     }
 
     fn get_param_by_name(&self, name: &str) -> Option<&'a CelValue> {
